@@ -429,7 +429,13 @@ def oracle_c17(rows):
     return fails
 
 
-def oracle_c04(rows):
+def oracle_c04_no_equation(rows):
+    """oracle_c04 without the ledger equation (which the property states only for histories
+    without reorganisations)."""
+    return oracle_c04(rows, equation=False)
+
+
+def oracle_c04(rows, equation=True):
     """After a full refresh (update_all) of an account: every record of that account that is
     Unspent or Locked is in the node's UTXO set and every Unconfirmed/Reverted one is not;
     the balance figures are the partition of the record values recomputed independently;
@@ -491,7 +497,7 @@ def oracle_c04(rows):
                     if o["status"] in (0, 4) and on_chain:
                         fails.append(_fail(r, idx, "after full refresh output %s is in the UTXO set but recorded status %d"
                                            % ((o["acct"], o["child"]), o["status"])))
-            if k == "update_state" and s["rc"] == [0] and not had_cancel:
+            if equation and k == "update_state" and s["rc"] == [0] and not had_cancel:
                 cred = sum(int(t["credited"]) - int(t["debited"]) for t in snap["txs"]
                            if t["parent"] == act and t["confirmed"])
                 held = sum(int(o["value"]) for o in snap["outputs"] if o["root"] == act and o["status"] in (1, 2))
@@ -507,4 +513,51 @@ def oracle_c04(rows):
                     tag = " [respent-change]" if adj != 0 and cred + adj == held else ""
                     fails.append(_fail(r, idx, "confirmed credits - debits = %d but total + locked = %d (account %d)%s"
                                        % (cred, held, act, tag)))
+    return fails
+
+
+def oracle_c18(rows):
+    """Reorganisations: after a FULL refresh of an account, a received transaction whose
+    output is no longer in the UTXO set and whose kernel the node no longer has is reported
+    TxReverted/unconfirmed with its output Reverted (excluded from spendable and total by the
+    partition oracle); once its output is in the UTXO set again it is TxReceived/confirmed and
+    the output Unspent; orphaned coinbases are not Unspent; a reservation never takes a
+    Reverted output."""
+    fails = []
+    for r in rows:
+        prev = None
+        for idx, s in enumerate(r["steps"]):
+            snap = s["snap"]
+            k = s["op"]["k"]
+            if k == "refresh" and s["op"]["all"] and s["rc"] == [0]:
+                parent = s["op"]["parent"]
+                truth = {(t[0], t[1], t[2]): t[3] for t in s["extra"].get("truth", [])}
+                missing = {tuple(x) for x in s["op"]["view"]["kernel_missing"]}
+                applied = prev is None or s["op"]["view"]["tip"] >= prev["conf_h"] or prev["active"] != parent
+                ents = {(t["parent"], t["id"]): t for t in snap["txs"]}
+                for o in snap["outputs"]:
+                    if o["root"] != parent or o["cb"] or o["tx"] is None:
+                        continue
+                    e = ents.get((o["root"], o["tx"]))
+                    on_chain = truth.get((o["acct"], o["child"], o["mmr"]))
+                    if e is None or on_chain is None or e["type"] not in (1, 5):
+                        continue
+                    if on_chain:
+                        if o["status"] == 4 or (e["type"] == 5 and applied):
+                            fails.append(_fail(r, idx, "output %s is in the UTXO set again but still reverted (output status %d, entry type %d)"
+                                               % ((o["acct"], o["child"]), o["status"], e["type"])))
+                    else:
+                        po = outputs_by_key(prev).get((o["acct"], o["child"], o["mmr"])) if prev else None
+                        was_confirmed = po is not None and po["status"] in (1, 4)
+                        if applied and was_confirmed and (o["root"], o["tx"]) in missing and e["has_excess"]:
+                            if o["status"] != 4 or e["type"] != 5 or e["confirmed"]:
+                                fails.append(_fail(r, idx, "received output %s vanished with its kernel but is recorded status %d, entry type %d confirmed %s"
+                                                   % ((o["acct"], o["child"]), o["status"], e["type"], e["confirmed"])))
+            if k == "lock" and s["rc"] == [0] and prev is not None:
+                po = outputs_by_key(prev)
+                for a, c, m, _v in (s["extra"].get("ctx_inputs") or []):
+                    o = po.get((a, c, m))
+                    if o is not None and o["status"] == 4:
+                        fails.append(_fail(r, idx, "a Reverted output %s was reserved as an input" % ((a, c),)))
+            prev = snap
     return fails
